@@ -1,7 +1,23 @@
-(* Properties_C03.v -- placeholder until FsModel lands. *)
-From LCDB Require Import Base LogFormat LogFormatClosed.
+(* Properties_C03.v -- C03: a process crash (everything that reached the OS persists)
+   loses nothing that was acknowledged.  Record-level model FsModel.v, proofs FsProofs.v.
+   The recovered state replays [applied_batches s]; the older batches [old] are those of
+   logs below the recovered log_number, each literally contained in tables named by an
+   edit ([flushed]).  Covers every trace accepted by [wf_protocol]. *)
+From LCDB Require Import Base LogFormat LogFormatClosed FsModel FsProofs.
+Local Open Scope N_scope.
+
 Theorem C03_written_log_prefix_is_record_prefix : forall rs n,
   Forall (fun r => wf_bytes r = true) rs -> (n <= length (write_log rs))%nat ->
   exists k, read_log (firstn n (write_log rs)) = map Rec (firstn k rs).
 Proof. exact read_cut_prefix. Qed.
 Print Assumptions C03_written_log_prefix_is_record_prefix.
+
+Theorem C03_process_crash : forall tr, wf_protocol tr = true -> forall p,
+  iget (written_image (firstn p tr)) FCurrent <> None ->
+  exists s old, recover (written_image (firstn p tr)) = Some s /\
+    Forall (fun b => flushed (firstn p tr) b /\
+                     exists n, In b (log_batches (firstn p tr) n) /\ n < r_log s) old /\
+    (old ++ applied_batches s = acked_before tr p \/
+     exists b, in_flight tr p b /\ old ++ applied_batches s = acked_before tr p ++ [b]).
+Proof. exact FsProofs.C03_process_crash. Qed.
+Print Assumptions C03_process_crash.
